@@ -79,7 +79,7 @@ func GenFS(r *core.Rand, dir string, cfg *FSCfg) *FSLayout {
 	hasRoot := r.Chance(4, 5)
 	if hasRoot {
 		l.LocalGOROOT = dir + "/goroot"
-		l.RemoteGOROOT = r.Pick([]string{"/usr/local/go", "/remote/sdk/go1.26", "/opt/go", dir + "/goroot", "/home/dev/src/go1.26", "/opt/pkg/mod/sdk/go"})
+		l.RemoteGOROOT = r.Pick([]string{"/usr/local/go", "/remote/sdk/go1.26", "/opt/go", dir + "/goroot", "/home/dev/src/go1.26", "/opt/pkg/mod/sdk/go", "D:/sdk/go1.26", "sdk/go"})
 		for _, f := range stdPkgs {
 			writeFile(l.LocalGOROOT+"/src/"+f, src(f))
 		}
@@ -92,6 +92,9 @@ func GenFS(r *core.Rand, dir string, cfg *FSCfg) *FSLayout {
 	if r.Chance(1, 3) {
 		// roots whose own name contains a "src" or "pkg/mod" component
 		remoteNames = []string{"/home/dev/src/go", "/data/srcdir/pkg/mod/gp", "/ci/pkg/mod/cache/gp"}
+	} else if r.Chance(1, 4) {
+		// roots that do not start with a slash: a Windows drive, a relative path (-trimpath style), a UNC-like path
+		remoteNames = []string{"C:/Users/dev/go", "work/gopath", "//buildhost/share/gp"}
 	}
 	for i := 0; i < ngp; i++ {
 		lp := fmt.Sprintf("%s/gp%d", dir, i)
